@@ -76,6 +76,48 @@ def run(tier, seed):
                     if not np.array_equal(a, s_, equal_nan=True):
                         b.fail(f"C12.ops.{name}.forward_mutates_operand", dict(desc, operand=i), f"forward changed an operand's contents: {s_.tolist()} -> {a.tolist()}")
                 b.case(desc)
+    # array-valued ARGUMENTS (stride / padding / dilation / pool / repeats / shift / axes given as ndarrays or lists) are inputs too: unchanged
+    # by the forward and by the backward pass
+    import mygrad.nnet as nn
+
+    def arg_cases():
+        x4 = rng.uniform(1, 2, size=(1, 1, 6, 8))
+        w4 = rng.uniform(1, 2, size=(1, 1, 2, 2))
+        yield "max_pool[stride array]", lambda a: nn.max_pool(mg.tensor(x4), (2, 2), a["stride"]), dict(stride=np.array([2, 3]))
+        yield "max_pool[pool array]", lambda a: nn.max_pool(mg.tensor(x4), a["pool"], (2, 2)), dict(pool=np.array([2, 2]))
+        yield "max_pool[lists]", lambda a: nn.max_pool(mg.tensor(x4), a["pool"], a["stride"]), dict(pool=[2, 2], stride=[2, 3])
+        yield "conv_nd[stride array]", lambda a: nn.conv_nd(mg.tensor(x4), mg.tensor(w4), stride=a["stride"]), dict(stride=np.array([2, 3]))
+        yield "conv_nd[padding,dilation arrays]", lambda a: nn.conv_nd(mg.tensor(x4), mg.tensor(w4), stride=1, padding=a["padding"], dilation=a["dilation"]), dict(padding=np.array([1, 0]), dilation=np.array([2, 1]))
+        yield "conv_nd[lists]", lambda a: nn.conv_nd(mg.tensor(x4), mg.tensor(w4), stride=a["stride"], padding=a["padding"]), dict(stride=[2, 1], padding=[0, 1])
+        x2 = rng.uniform(1, 2, size=(2, 3))
+        yield "repeat[repeats array]", lambda a: mg.repeat(mg.tensor(x2), a["repeats"], axis=1), dict(repeats=np.array([1, 2, 0]))
+        yield "roll[shift array]", lambda a: mg.roll(mg.tensor(x2), a["shift"], axis=(0, 1)), dict(shift=np.array([1, 2]))
+        yield "transpose[axes list]", lambda a: mg.transpose(mg.tensor(x2), a["axes"]), dict(axes=[1, 0])
+        yield "reshape[shape list]", lambda a: mg.reshape(mg.tensor(x2), a["shape"]), dict(shape=[3, 2])
+        yield "sum[axis tuple]", lambda a: mg.sum(mg.tensor(x2), axis=a["axis"]), dict(axis=(0, 1))
+        yield "einsum[operand list]", lambda a: mg.einsum("ij,ij->i", *a["ops"]), dict(ops=[mg.tensor(x2), mg.tensor(x2 * 2)])
+        yield "moveaxis[lists]", lambda a: mg.moveaxis(mg.tensor(x2), a["src"], a["dst"]), dict(src=[0], dst=[1])
+        yield "clip[bound arrays]", lambda a: mg.clip(mg.tensor(x2), a["lo"], a["hi"]), dict(lo=np.full((3,), 1.2), hi=np.full((3,), 1.8))
+
+    import copy as _copy
+
+    for nm, call, args in arg_cases():
+        snap = {k: (v.copy() if isinstance(v, np.ndarray) else _copy.copy(v)) for k, v in args.items() if not (isinstance(v, list) and v and isinstance(v[0], mg.Tensor))}
+        desc = dict(fn=nm, arguments={k: repr(v)[:40] for k, v in snap.items()})
+        try:
+            out = call(args)
+            changed_fwd = [k for k, v in snap.items() if not np.array_equal(np.asarray(args[k]), np.asarray(v))]
+            out.backward(np.ones(out.shape))
+            changed_bwd = [k for k, v in snap.items() if not np.array_equal(np.asarray(args[k]), np.asarray(v))]
+        except Exception as e:
+            b.error(f"{nm}: {type(e).__name__}: {e}")
+            continue
+        b.count("argument frame")
+        if changed_fwd:
+            b.fail(f"C12.ops.{nm.split('[')[0]}.forward_mutates_argument", desc, f"the forward pass changed the caller's argument(s) {changed_fwd}: now {[np.asarray(args[k]).tolist() for k in changed_fwd]}")
+        elif changed_bwd:
+            b.fail(f"C12.ops.{nm.split('[')[0]}.backward_mutates_argument", desc, f"backward() changed the caller's argument(s) {changed_bwd}: now {[np.asarray(args[k]).tolist() for k in changed_bwd]}")
+        b.case(desc)
     # index objects
     for ix in idx_objs:
         x = mg.tensor(rng.uniform(1, 2, size=(3, 2)))
